@@ -79,7 +79,7 @@ class Ctx:
         return r
 
     # ---- R3: judgement of observations by a trace module -------------------------------------
-    def judge(self, module, observations, cfg=None, env=None, timeout=1200, workers=2):
+    def judge(self, module, observations, cfg=None, env=None, timeout=3000, workers=2):
         v = obsmod.judge(module, observations, cfg=cfg, env=env, timeout=timeout, workers=workers)
         self.traces += v.n - v.skipped
         if v.skipped:
@@ -218,10 +218,17 @@ def finish(ctx, check_meta):
 
 # ---- stages: cases -> observations on the real code -> TLC judgement ----------------------------
 def run_stage(ctx, name, cases, fn, module, cfg=None, sig_keys=("label", "form"), nontrivial=None,
-              raise_is_violation=True, judge_workers=2, diagnose=None):
+              raise_is_violation=True, judge_workers=2, diagnose=None, batch=None):
     """Run fn(case) -> observation dict (or list of dicts) for every case in a process pool, have the
-    TLA+ trace module judge every observation, and turn rejections into violations."""
+    TLA+ trace module judge every observation, and turn rejections into violations.
+    batch=N: work through the cases N at a time (bounds the memory of stages with millions of observations)."""
     cases = list(cases)
+    if batch and len(cases) > batch:
+        v = None
+        for k in range(0, len(cases), batch):
+            v = run_stage(ctx, name, cases[k:k + batch], fn, module, cfg=cfg, sig_keys=sig_keys, nontrivial=nontrivial,
+                          raise_is_violation=raise_is_violation, judge_workers=judge_workers, diagnose=diagnose)
+        return v
     for c in cases:
         c["stage"] = name
     res = pmap(fn, cases)
@@ -266,8 +273,9 @@ def run_stage(ctx, name, cases, fn, module, cfg=None, sig_keys=("label", "form")
         ctx.nontrivial.add((name, key))
     if obs_list:
         ctx.sample({"stage": name, "case": {k: v for k, v in cases[0].items()}, "observation": obs_list[0]})
-    ctx.stage_counts[name] = {"cases": len(cases), "observations": len(obs_list), "rejected": len(v.rejects),
-                              "raised": n_raise}
+    prev = ctx.stage_counts.get(name) or {}
+    ctx.stage_counts[name] = {"cases": len(cases) + prev.get("cases", 0), "observations": len(obs_list) + prev.get("observations", 0),
+                              "rejected": len(v.rejects) + prev.get("rejected", 0), "raised": n_raise + prev.get("raised", 0)}
     return v
 
 
